@@ -27,6 +27,9 @@ pub struct Fault {
 #[derive(Default)]
 pub struct State {
     pub bytes: Vec<u8>,
+    /// What a write-back medium would hold: the image at the last successful
+    /// `flush` call (the initial bytes before any flush).
+    pub durable: Vec<u8>,
     pub writes: u64,
     pub reads: u64,
     pub seeks: u64,
@@ -56,6 +59,11 @@ impl Peek {
     pub fn bytes(&self) -> Vec<u8> {
         self.st.borrow().bytes.clone()
     }
+    /// The image a write-back medium holds: what was written before the last
+    /// successful flush of the medium.
+    pub fn durable_bytes(&self) -> Vec<u8> {
+        self.st.borrow().durable.clone()
+    }
     pub fn with<T>(&self, f: impl FnOnce(&mut State) -> T) -> T {
         f(&mut self.st.borrow_mut())
     }
@@ -70,7 +78,7 @@ impl Peek {
 
 impl Medium {
     pub fn new(bytes: Vec<u8>) -> (Medium, Peek) {
-        let st = Rc::new(RefCell::new(State { bytes, ..State::default() }));
+        let st = Rc::new(RefCell::new(State { durable: bytes.clone(), bytes, ..State::default() }));
         (Medium { st: st.clone(), pos: 0 }, Peek { st })
     }
     pub fn empty() -> (Medium, Peek) {
@@ -161,6 +169,7 @@ impl Write for Medium {
         if fires(&mut st, Kind::Flush, idx) {
             return Err(injected(Kind::Flush, idx));
         }
+        st.durable = st.bytes.clone();
         Ok(())
     }
 }
